@@ -363,6 +363,20 @@ func readPendingTxs(statesSub statesSub, timeout time.Duration) (channel.Transac
 			currentTx = temp
 			log.WithField("ID", currentTx.ID).Debugf("Received state from client", currentTx.Version, currentTx.ID)
 		case <-time.NewTimer(timeout).C:
+			// If this goroutine was delayed for longer than the timeout, the
+			// timer and the subscription are both ready and select picks one
+			// of them at random. Pending transactions must never be skipped,
+			// so give the subscription priority over the expired timer.
+			select {
+			case temp, ok = <-statesSub.statesStream():
+				if !ok {
+					return currentTx, found
+				}
+				found = true
+				currentTx = temp
+				continue
+			default:
+			}
 			return currentTx, found
 		}
 	}
